@@ -292,21 +292,21 @@ fn cmd_check(id: &str, tier: Tier) -> i32 {
     if let Err(e) = keys::selfcheck() {
         harness_error(&e);
     }
-    let notes = match spec::selfcheck() {
-        Ok(n) => n,
-        Err(e) => harness_error(&format!("specification tables failed their self-check: {}", e)),
-    };
-    let tables = Tables::build();
+    if let Err(e) = spec::selfcheck() {
+        harness_error(&format!("specification tables failed their self-check: {}", e));
+    }
+    let tables = spec::tables();
+    let notes = tables.notes.clone();
     let known = load_known();
     let t0 = Instant::now();
     println!("pcsim: property={} tier={:?} VERIF_SEED={} runs={} threads={}", id, tier, seed, nruns, threads);
-    let mut b = run_batch(scn.as_ref(), &tables, &known, seed, tier, nruns, threads, false);
+    let mut b = run_batch(scn.as_ref(), tables, &known, seed, tier, nruns, threads, false);
     let mut extra: Vec<(String, J)> = Vec::new();
     // batch-level history check (only meaningful if no run failed)
     if b.failure.is_none() {
         for mut t in scn.batch_traces(&b.cov) {
             t.seed = seed;
-            let mut e = Env::new(&tables, &known);
+            let mut e = Env::new(tables, &known);
             scn.declare(&mut e.cov);
             if let Some(v) = exec_guarded(scn.as_ref(), &t, &mut e).violation {
                 b.failure = Some(Failure { run: t.run, trace: t, violation: v });
@@ -325,11 +325,11 @@ fn cmd_check(id: &str, tier: Tier) -> i32 {
     }
     if let Some(f) = b.failure.take() {
         // minimise, write the replay file, replay it in a fresh process
-        let mut scratch = Env::new(&tables, &known);
+        let mut scratch = Env::new(tables, &known);
         scn.declare(&mut scratch.cov);
         let target = f.violation.clone();
         let mut test = |t: &Trace| -> Option<Violation> {
-            let mut e = Env::new(&tables, &known);
+            let mut e = Env::new(tables, &known);
             scn.declare(&mut e.cov);
             exec_guarded(scn.as_ref(), t, &mut e).violation
         };
@@ -412,9 +412,9 @@ fn cmd_replay(path: &str) -> i32 {
         Some(s) => s,
         None => harness_error(&format!("no check for property {}", trace.prop)),
     };
-    let tables = Tables::build();
+    let tables = spec::tables();
     let known = load_known();
-    let mut env = Env::new(&tables, &known);
+    let mut env = Env::new(tables, &known);
     scn.declare(&mut env.cov);
     env.verbose = std::env::var("PCSIM_QUIET").is_err();
     let out = exec_guarded(scn.as_ref(), &trace, &mut env);
@@ -444,9 +444,9 @@ fn cmd_hashes(id: &str, n: u64, tier: Tier) -> i32 {
     let scn = scenario(id).unwrap_or_else(|| harness_error("unknown property"));
     let seed: u64 = std::env::var("VERIF_SEED").ok().and_then(|s| s.trim().parse().ok()).unwrap_or(1);
     let threads: usize = std::env::var("PCSIM_THREADS").ok().and_then(|s| s.parse().ok()).unwrap_or(16);
-    let tables = Tables::build();
+    let tables = spec::tables();
     let known = load_known();
-    let b = run_batch(scn.as_ref(), &tables, &known, seed, tier, n, threads, true);
+    let b = run_batch(scn.as_ref(), tables, &known, seed, tier, n, threads, true);
     for (r, h) in &b.per_run_hashes {
         println!("{} {:016x}", r, h);
     }
